@@ -4,9 +4,10 @@ from common import *
 import expr as X
 import pool
 import evalcheck
+import concurrent.futures
 
 PROP = "C05"
-PROP_FILES = ["Properties/C05.v", "Check/EvalCheck.v"]
+PROP_FILES = ["Properties/C05.v", "Check/EvalCheck.v", "Check/C05Check.v"]
 N = X.num
 
 
@@ -33,6 +34,42 @@ def collections():
     C["d_tupkey"] = X.dict_([(X.tup([("a", N(1))]), N(1)), (X.arr([N(1)]), N(2))])
     C["u_keyed"] = X.binop("|", X.arr([N(1), N(2)]), X.dict_([(X.string("k"), N(5))]))
     C["u_two_at"] = X.set_([X.tup([("@", N(1)), ("x", N(2))]), X.tup([("@", N(2)), ("y", N(3))])])
+    return C
+
+
+def rep_collections():
+    """more layouts for the representation-level stream (Check/C05Check.v)"""
+    C = collections()
+    item = lambda i, v: X.tup([("@", N(i)), ("@item", N(v))])
+    char = lambda i, v: X.tup([("@", N(i)), ("@char", N(v))])
+    byte = lambda i, v: X.tup([("@", N(i)), ("@byte", N(v))])
+    # candidate values of sequence-item shape: the same index twice (KF-C05-04), different indices, equal values
+    C["rc_item_same"] = X.rel(["@", "x"], [[N(1), item(0, 1)], [N(1), item(0, 2)]])
+    C["rc_item_diff"] = X.rel(["@", "x"], [[N(1), item(0, 1)], [N(1), item(1, 2)], [N(2), item(0, 3)]])
+    C["rc_char_same"] = X.rel(["@", "x"], [[N(1), char(0, 97)], [N(1), char(0, 98)], [N(0), char(0, 99)]])
+    C["rc_byte_same"] = X.rel(["@", "x"], [[N(1), byte(0, 7)], [N(1), byte(0, 8)]])
+    C["rc_byte_gap"] = X.rel(["@", "x"], [[N(1), byte(0, 7)], [N(1), byte(2, 8)]])
+    C["dc_item_same"] = X.binop("|", X.dict_([(N(1), item(0, 1))]), X.dict_([(N(1), item(0, 2))]))
+    C["dc_mixed"] = X.binop("|", X.dict_([(N(1), item(0, 1))]), X.dict_([(N(1), char(0, 2)), (N(2), N(5))]))
+    C["uc_item_same"] = X.set_([X.tup([("@", N(1)), ("x", item(0, 1))]), X.tup([("@", N(1)), ("y", item(0, 2))])])
+    # other layouts
+    C["u_true_pair"] = X.set_([X.tup([]), X.tup([("@", N(1)), ("x", N(2))])])
+    C["u_gen_pair"] = X.set_([N(1), X.tup([("@", N(1)), ("x", N(2))])])
+    C["str_hole_off"] = X.binop("\\", N(3), C["str_hole2"])
+    C["str_hole_neg"] = X.binop("\\", N(-4), C["str_hole2"])
+    C["by_neg"] = X.bytes_([5, 6, 7], -1)
+    C["ar_hole_off"] = X.binop("\\", N(-2), C["ar_hole3"])
+    C["rj_at_item"] = X.join("<&>", X.rel(["@"], [[N(0)], [N(2)]]), X.rel(["@item"], [[N(9)]]))
+    C["rj_item_at"] = X.join("<&>", X.rel(["@item"], [[N(9)]]), X.rel(["@"], [[N(0)], [N(2)]]))
+    C["d_multi3"] = X.binop("|", C["dmulti"], X.dict_([(N(1), N(4)), (N(2), N(4))]))
+    C["d_back_single"] = X.binop("without", C["dmulti"], X.tup([("@", N(1)), ("@value", N(3))]))
+    C["d_arrkey"] = X.dict_([(X.arr([N(1)]), N(2)), (X.arr([N(1)], 1), N(3)), (X.string("a"), N(4))])
+    C["r_three"] = X.rel(["@", "x", "y"], [[N(1), N(2), N(3)]])
+    C["r_one_at"] = X.rel(["@"], [[N(1)], [N(2)]])
+    C["r_atx_many"] = X.rel(["@", "x"], [[N(i % 4), N(i)] for i in range(11)])
+    C["d_many"] = X.dict_([(N(i), N(i * i)) for i in range(11)])
+    C["str_filled"] = X.binop("with", C["str_hole"], X.tup([("@", N(1)), ("@char", N(120))]))
+    C["ar_filled"] = X.binop("with", C["ar_hole"], X.tup([("@", N(1)), ("@item", N(7))]))
     return C
 
 
@@ -105,11 +142,297 @@ def gen_cases(rng, tier):
     return [{"id": i, "label": l, "ast": e} for i, (l, e) in enumerate(out)]
 
 
+# ---------- representation-level stream: the transcription of Rep/CallRep.v on the layouts the implementation holds ----------
+
+FB = X.tup([("fb", N(1))])          # the ?: fallback of the source forms
+REGION_SIG = {1: "call-result-collision", 2: "seq-collision", 4: "bytes-gap"}
+REP_CODE_TEXT = {1: "SetCall / ++ / offset through the API differs from the specification on the observed denotation",
+                 2: "c(k) differs from the specification on the observed denotation",
+                 3: "c(k)?:d differs from the specification on the observed denotation",
+                 11: "the observed layout breaks an invariant of its Go type (wfb)",
+                 12: "the observed layout does not denote what the public enumeration / Count() show",
+                 13: "the implementation differs from the transcribed function (rep_setcall / rep_offset / rep_concat) on the same layout",
+                 14: "CallAll adds other candidates than the transcription",
+                 15: "c(k) differs from the transcribed SetCall", 16: "c(k)?:d differs from the transcribed safe call"}
+
+
+def vals_term(ds):
+    ts = [val_term(d) for d in ds]
+    return None if any(t is None for t in ts) else "[" + "; ".join(ts) + "]"
+
+
+def rep_term(lo):
+    """harness layout -> Coq rep term (None when not expressible)"""
+    ty = lo.get("ty")
+    if ty == "EmptySet":
+        return "REmpty"
+    if ty == "TrueSet":
+        return "RTrue"
+    if ty == "String":
+        return "(RStr (%d) %s (%d))" % (lo["off"], zl(lo["cells"]), lo["holes"])
+    if ty == "Bytes":
+        return "(RBytes (%d) %s)" % (lo["off"], zl(lo["b"]))
+    if ty == "Array":
+        cells = []
+        for c in lo["cells"]:
+            if c is None:
+                cells.append("None")
+            else:
+                t = val_term(c)
+                if t is None:
+                    return None
+                cells.append("(Some %s)" % t)
+        return "(RArr (%d) [%s] (%d))" % (lo["off"], "; ".join(cells), lo["count"])
+    if ty == "Dict":
+        es = []
+        for e in lo["es"]:
+            k, vs = val_term(e["k"]), vals_term(e["vs"])
+            if k is None or vs is None:
+                return None
+            es.append("(%s, %s)" % (k, "DMulti %s" % vs if e["multi"] else "DOne %s" % val_term(e["vs"][0])))
+        return "(RDict [%s])" % "; ".join(es)
+    if ty == "Relation":
+        rows = [vals_term(r) for r in lo["rows"]]
+        if any(r is None for r in rows):
+            return None
+        return "(RRel [%s] [%s] [%s])" % ("; ".join(name_term(a) for a in lo["attrs"]),
+                                         "; ".join("%d%%nat" % i for i in lo["p"]), "; ".join(rows))
+    if ty == "GenericSet":
+        ms = vals_term(lo["ms"])
+        return None if ms is None else "(RGen %s)" % ms
+    if ty == "UnionSet":
+        bs = [rep_term(b) for b in lo["bs"]]
+        return None if any(b is None for b in bs) else "(RUnion [%s])" % "; ".join(bs)
+    return None
+
+
+def layout_kind(lo, depth=0):
+    ty = lo.get("ty", "?")
+    if ty in ("String", "Bytes", "Array"):
+        cells = lo.get("cells", lo.get("b", []))
+        holes = sum(1 for c in cells if c is None or (isinstance(c, int) and c < 0))
+        return "%s%s%s" % (ty, "+off" if lo.get("off") else "", "+holes" if holes else "")
+    if ty == "Dict":
+        return "Dict" + ("+multi" if any(e["multi"] for e in lo["es"]) else "")
+    if ty == "Relation":
+        return "Relation[%s]%s" % (",".join(lo["attrs"]), "" if lo["p"] == sorted(lo["p"]) else "+perm")
+    if ty == "UnionSet":
+        return "UnionSet(%s)" % ",".join(sorted(b.get("ty", "?") for b in lo["bs"]))
+    return ty
+
+
+def operand(o):
+    """evaluated operand -> (rep term, den term, count) or None"""
+    if not o or o.get("st") != "ok" or "s" not in o.get("val", {}):
+        return None
+    lo = o.get("layout") or {}
+    r, den = rep_term(lo), vals_term(o["val"]["s"])
+    if r is None or den is None or "count" not in o:
+        return None
+    return r, den, o["count"]
+
+
+def lobs_term(o):
+    if not o or o.get("st") in ("timeout", "panic", "crash", None):
+        return "LBad"
+    if o["st"] == "err":
+        return "LErr"
+    if "s" not in o.get("val", {}):
+        return "LBad"
+    den = vals_term(o["val"]["s"])
+    if den is None:
+        return "LBad"
+    r = rep_term(o.get("layout") or {})
+    if r is None:
+        return "(LOther %s)" % den
+    return "(LRep %s %s (%d))" % (r, den, o.get("count", -1))
+
+
+def sobs_term(o):
+    if not o or o.get("st") in ("timeout", "panic", "crash", None):
+        return "SOBad"
+    if o["st"] == "err":
+        return "SOErr"
+    t = val_term(o.get("val", {}))
+    return "SOBad" if t is None else "(SOVal %s)" % t
+
+
+def rep_cases(rng, tier):
+    C = rep_collections()
+    names = sorted(C)
+    A = [a for a in args() if a[0] != "call" or a == args()[18] or a == args()[19]][:20]
+    keys = A + [N(4), N(7), N(-4), N(-3), N(9), N(2.5), X.arr([N(1)], 1), X.tup([("@", N(0)), ("@item", N(1))])]
+    seqs = [n for n in names if n.startswith(("str_", "by_", "ar_")) or n == "empty"]
+    others = ["s12", "d12", "dmulti", "r_atx", "u_arr_str", "true", "rj_at_item", "r_ab", "u_3", "d_arrkey", "rj_x_at"]
+    offs = [N(0), N(1), N(3), N(-2), N(-7), N(1.5), N(-1.5), N(-0.5), X.string("a"), X.set_([])]
+    cases = []
+
+    def call(c, k):
+        cs, ks = X.src(C[c]), X.src(k)
+        cases.append({"op": "call", "label": "rep-call %s" % c, "c": cs, "k": ks,
+                      "call_src": X.src(X.call(C[c], k)), "safe_src": X.src(X.safecall(C[c], k, FB))})
+
+    def offset(s, n):
+        cases.append({"op": "offset", "label": "rep-offset %s" % s, "s": X.src(C[s]), "n": X.src(n), "res_src": X.src(X.binop("\\", n, C[s]))})
+
+    def concat(a, b):
+        cases.append({"op": "concat", "label": "rep-concat %s %s" % (a, b), "a": X.src(C[a]), "b": X.src(C[b]),
+                      "res_src": X.src(X.binop("++", C[a], C[b]))})
+
+    # enumerated cores (independent of the random stream); the quick tier takes a fixed sub-product
+    quick = tier == "quick"
+    core_keys = [N(0), N(1), N(2), N(-1), N(4), N(0.5), X.string("a"), X.tup([("a", N(1))]), X.arr([N(1)]), N(-4), N(7)]
+    rep_seqs = ["str_ab", "str_hole2", "str_neg", "str_hole_off", "by_12", "by_off", "by_neg", "ar_12", "ar_hole3", "ar_neg", "ar_hole_off", "empty"]
+    for c in names:
+        for k in (core_keys if quick else keys):
+            call(c, k)
+        if quick:
+            for k in rng.sample([k for k in keys if k not in core_keys], 2):
+                call(c, k)
+    for s in seqs + others:
+        for n in (offs[:3] + offs[4:6] + offs[8:9] if quick else offs):
+            offset(s, n)
+    for a in seqs:
+        for b in (rep_seqs if quick else seqs):
+            concat(a, b)
+    if quick:
+        for a in rep_seqs:
+            for b in seqs:
+                if b not in rep_seqs:
+                    concat(a, b)
+    for a in (rep_seqs if quick else seqs) + others:
+        for b in (others[:6] if quick else others):
+            concat(a, b)
+    for b in (rep_seqs[:6] if quick else seqs[:12]):
+        for a in others:
+            concat(a, b)
+    # random: compositions as operands (layouts produced by ++ and \ themselves)
+    for _ in range(100 if tier == "quick" else 1500):
+        a, b, c2 = rng.choice(seqs), rng.choice(seqs), rng.choice(seqs)
+        e = X.binop("++", X.binop("\\", N(rng.choice([-3, -1, 2, 5])), C[a]), C[b])
+        nm = "x_%d" % len(C)
+        C[nm] = e
+        k = rng.random()
+        if k < 0.4:
+            call(nm, N(rng.randrange(-4, 9)))
+        elif k < 0.7:
+            concat(nm, c2) if rng.random() < 0.5 else concat(c2, nm)
+        else:
+            offset(nm, N(rng.choice([-5, -1, 0, 2, 2.5])))
+    for i, c in enumerate(cases):
+        c["id"] = i
+    return cases
+
+
+def rep_stream(run, vh, rng, tier, replay=None):
+    t_start = time.time()
+    cases = rep_cases(rng, tier)
+    if replay is not None:
+        cases = [dict(replay, id=0)]
+    outs, _, _ = run_harness(vh, "c05rep", cases)
+    terms = {"call": [], "offset": [], "concat": []}
+    hist, skipped = {}, 0
+    fb = val_term({"t": [["fb", {"n": "1"}]]})
+    for c in cases:
+        o = outs.get(c["id"]) or {}
+        if o.get("st") != "done":
+            run.corr_breaks.append({"what": "harness c05rep gave no result", "case": c, "observed": o})
+            continue
+        if c["op"] == "call":
+            oc, ok = operand(o.get("c")), o.get("k") or {}
+            kt = val_term(ok["val"]) if ok.get("st") == "ok" and "f" not in ok.get("val", {}) else None
+            if oc is None or kt is None or "setcall" not in o:
+                skipped += 1
+                continue
+            sc = o["setcall"]
+            sct = {"noreturn": "CNoRet", "err": "CErrO", "panic": "CPanicO"}.get(sc.get("st"), "CBad")
+            if sc.get("st") == "ok":
+                t = val_term(sc["val"])
+                sct = "CBad" if t is None else "(CVal %s)" % t
+            ca = o.get("cands") or {}
+            cat = "KBad"
+            if ca.get("st") == "ok" and "s" in ca.get("val", {}):
+                t = vals_term(ca["val"]["s"])
+                cat = "KBad" if t is None else "(KSet %s)" % t
+            elif ca.get("st") == "err":
+                cat = "KErr"
+            terms["call"].append((c, "{| cc_id := %d; cc_rep := %s; cc_den := %s; cc_count := %d; cc_key := %s; cc_setcall := %s; cc_cands := %s; cc_call := %s; cc_safe := %s; cc_fb := %s |}" % (
+                c["id"], oc[0], oc[1], oc[2], kt, sct, cat, sobs_term(o.get("call_src")), sobs_term(o.get("safe_src")), fb)))
+            kind = layout_kind(o["c"]["layout"])
+        elif c["op"] == "offset":
+            os_, on = operand(o.get("s")), o.get("n") or {}
+            nt = val_term(on["val"]) if on.get("st") == "ok" and "f" not in on.get("val", {}) else None
+            if os_ is None or nt is None:
+                skipped += 1
+                continue
+            terms["offset"].append((c, "{| oc_id := %d; oc_rep := %s; oc_den := %s; oc_count := %d; oc_n := %s; oc_res := %s |}" % (
+                c["id"], os_[0], os_[1], os_[2], nt, lobs_term(o.get("res")))))
+            kind = layout_kind(o["s"]["layout"])
+        else:
+            oa, ob = operand(o.get("a")), operand(o.get("b"))
+            if oa is None or ob is None:
+                skipped += 1
+                continue
+            terms["concat"].append((c, "{| kc_id := %d; kc_a := %s; kc_a_den := %s; kc_a_count := %d; kc_b := %s; kc_b_den := %s; kc_b_count := %d; kc_res := %s |}" % (
+                c["id"], oa[0], oa[1], oa[2], ob[0], ob[1], ob[2], lobs_term(o.get("res")))))
+            kind = layout_kind(o["a"]["layout"]) + " ++ " + layout_kind(o["b"]["layout"])
+        hist.setdefault(c["op"], {})
+        hist[c["op"]][kind] = hist[c["op"]].get(kind, 0) + 1
+    jobs = []
+    for op, rec, fn in (("call", "ccase", "report_call"), ("offset", "ocase", "report_offset"), ("concat", "kcase", "report_concat")):
+        ts = terms[op]
+        for i in range(0, len(ts), 250):
+            jobs.append((op, rec, fn, ts[i:i + 250], len(jobs)))
+
+    def do(job):
+        op, rec, fn, chunk, idx = job
+        body = ["From Arrai Require Import Base.Val Spec.SetAlg Eval.Interp Rep.CallRep Check.C05Check.",
+                "Definition cases : list %s := [" % rec, ";\n".join("  " + t for _, t in chunk), "].",
+                "Definition R := Eval vm_compute in %s cases.\nPrint R." % fn]
+        if op == "call":
+            body.append("Definition G := Eval vm_compute in [region_count cases].\nPrint G.")
+        rc2, so, se = coq_eval("c05rep_%d_%d" % (os.getpid(), idx), "\n".join(body))
+        return coq_report(so, "R"), (coq_report(so, "G") if op == "call" else None), se
+
+    byid = {c["id"]: c for c in cases}
+    in_region, codes_hist = 0, {}
+    with concurrent.futures.ThreadPoolExecutor(max_workers=8) as ex:
+        for (rep, g, se), job in zip(ex.map(do, jobs), jobs):
+            if rep is None:
+                run.corr_breaks.append({"what": "the transcription could not be evaluated (Check/C05Check.v, %s)" % job[0], "log": se[-1500:]})
+                continue
+            if g:
+                in_region += g[0]
+            for cid, code in rep:
+                c = byid[cid]
+                base, region = code % 100, code // 100
+                codes_hist[str(code)] = codes_hist.get(str(code), 0) + 1
+                sig = REGION_SIG.get(1 if region == 1 else (2 if region & 2 else (4 if region & 4 else 0)))
+                rec = {"case": {k: v for k, v in c.items() if k != "id"}, "observed": outs.get(cid),
+                       "oracle": "C05_rep_call_refines_call_data / C05_rep_offset_refines / C05_rep_concat_refines (Rep/CallRep.v on the observed layout): " + REP_CODE_TEXT.get(base, str(base))}
+                if base < 10:
+                    run.classify_failure(sig, rec)
+                elif sig and run.finding_for(sig):
+                    run.classify_failure(sig, rec)
+                else:
+                    run.corr_breaks.append({"what": "implementation and transcription (Rep/CallRep.v) disagree", **rec})
+    if replay is None and run.finding_for("call-result-collision") and "KF-C05-04" not in run.known_hits:
+        run.corr_breaks.append({"what": "open finding KF-C05-04 (call-result-collision) no longer reproduces on its witness"})
+    return {"rep_cases": len(cases), "rep_evaluated": {k: len(v) for k, v in terms.items()}, "rep_skipped_unexpressible": skipped,
+            "rep_layout_histogram": hist, "rep_cases_in_region_KF-C05-04": in_region, "rep_verdict_codes": codes_hist,
+            "rep_wall_s": round(time.time() - t_start, 1)}
+
+
 def main(tier, seed, replay=None):
     run = Run(PROP, tier, seed)
     vh, proof = prepare(PROP_FILES, thorough=(tier == "thorough"))
     rng = random.Random(seed)
-    cases = evalcheck.replay_cases(replay) if replay else gen_cases(rng, tier)
+    rep_replay = None
+    if replay:
+        rp = json.load(open(replay))
+        if (rp.get("case") or {}).get("op"):
+            rep_replay = rp["case"]
+    cases = ([] if rep_replay else evalcheck.replay_cases(replay)) if replay else gen_cases(rng, tier)
     outs, codes, fails = evalcheck.evaluate(vh, cases)
     # here the error/no-error distinction is part of the property (call is an error for 0 or >1 values; ?: only for none)
     evalcheck.judge(run, cases, outs, codes, fails,
@@ -123,5 +446,7 @@ def main(tier, seed, replay=None):
                     "keyed collections in every representation (strings/bytes/arrays with offsets, holes, gaps; dicts incl. multi-valued and structured keys; relations over {@,x} incl. duplicate keys; union sets; non-keyed sets) x arguments (present, absent, negative, non-integer, wrong kind) x transformers (identity, +1, constant, kind-changing, failing), for c(k), c(k)?:d, >>, >>>, ++, n\\\\c; "
                     + ("thorough = full product collection x argument and collection x transformer" if tier == "thorough" else "quick = random sample"),
                     {"operation_histogram": kinds, "exhaustive": False})
+    if rep_replay or not replay:
+        run.cov.update(rep_stream(run, vh, random.Random(seed + 7919), tier, rep_replay))
     run.assumptions = ["numbers are integers or half-integers below 2^53"]
     return run.finish(proof)
